@@ -585,7 +585,7 @@ OBLIGATIONS = [
     Ob("tls_garbage", tls_garbage, quick=120, thorough=300,
        symbolic="what arrives instead of a handshake (application bytes / broken handshake record / handshake that fails), flights",
        functions=["TLSServerProtocol.data_received", "_do_handshake", "_close_with_error"], stubs=["StubTLSConn", "FakeTransport"]),
-    Ob("compose", compose, quick=600, thorough=1800,
+    Ob("compose", compose, quick=1000, thorough=2400,
        symbolic="file name (8 incl. newline, CR, '=> ' link syntax, undecodable, 200 characters), request path (11), listing flag, "
                 "routing configuration (single root / location without catch-all / locations with catch-all) assembled by the real start_server",
        functions=F_PROTO + ["start_server (assembly)", "default_404_handler", "Router.route", "StaticFileHandler.handle",
